@@ -170,7 +170,14 @@ def load_known():
     if not os.path.exists(p):
         return []
     with open(p) as f:
-        return json.load(f)['findings']
+        out = json.load(f)['findings']
+    # development aid only (never set by MANIFEST commands): entries proposed by a check's author, not yet accepted
+    if os.environ.get('VERIF_PROPOSED_KNOWN') == '1':
+        d = os.path.join(VERIF, 'proposed_known')
+        for n in sorted(os.listdir(d)) if os.path.isdir(d) else []:
+            with open(os.path.join(d, n)) as f:
+                out.extend(json.load(f)['findings'])
+    return out
 
 
 def load_schema():
